@@ -14,6 +14,17 @@
 (* of the shapes transcribed in Edits.tla? does the specification's reader *)
 (* of import sections agree with the real parser?) is reported as drift.   *)
 (*                                                                         *)
+(* Proposals are requested wherever the class name is written in an         *)
+(* expression: where it is unresolved, and where it is BOUND already (the   *)
+(* document imports it from one of several modules that export a class of   *)
+(* that name, or declares it itself).  "Otherwise the same program" is      *)
+(* judged semantically too: NoNewDiagnostic (the fresh server reports no    *)
+(* diagnostic about the edited document that it did not report before: in   *)
+(* particular no name collision) and BoundNamesStayBound (every class name  *)
+(* bound before is bound to the same module after: the last import of a     *)
+(* name wins, so a second import of a bound name would silently re-route    *)
+(* every use of it).                                                        *)
+(*                                                                         *)
 (* A record taken after a workspace history (fields hinit / hops: the      *)
 (* history in the terms of EditsHist.tla) is judged against the LIVE        *)
 (* workspace of that history: `exporters` must be LiveExporters(Replay(..)) *)
@@ -54,6 +65,32 @@ Pairs(s) == {s[i] : i \in DOMAIN s}
 Select(conds) == SelectSeq(conds, LAMBDA c : ~c[2])
 NamesOf2(conds) == [i \in DOMAIN conds |-> conds[i][1]]
 
+\* ---- "otherwise the same program", semantically ---------------------------------------------
+\* The module a class name written in the document is bound to: the LAST import that names it (the
+\* parser resolves a class name through its class_source_map, filled import by import), else the
+\* document itself when it declares a class / interface of that name, else "" (not bound).
+\* seq: the imports in source order, one <<module, name>> per imported name; locals: declared names.
+BindingOf(seq, locals, doc, n) ==
+  LET is == {i \in DOMAIN seq : seq[i][2] = n}
+  IN IF is # {} THEN seq[Max(is)][1] ELSE IF n \in ToSet(locals) THEN doc ELSE ""
+NamesBound(seq, locals) == {seq[i][2] : i \in DOMAIN seq} \cup ToSet(locals)
+
+\* Every class name that was bound before the edit is bound to the same module afterwards.  The one
+\* exception the property itself makes: the class the proposal is about, when its binding did not
+\* resolve it (an import naming it from a module that does not export it) -- that one may move to the
+\* module the proposal names.
+BindingsKept(R, targets) ==
+  \A n \in NamesBound(R.imports_seq_before, R.locals_before) :
+     LET b == BindingOf(R.imports_seq_before, R.locals_before, R.doc_mod, n)
+         a == BindingOf(R.imports_seq_after, R.locals_after, R.doc_mod, n)
+     IN \/ a = b
+        \/ n = R.cls /\ b # R.doc_mod /\ b \notin ToSet(R.exporters) /\ a \in targets
+
+\* The fresh server reports nothing about the edited document that it did not report about the
+\* original one (diagnostics of any kind, compared without their positions, as bags): no name
+\* collision, no type error that was not there.  What disappears is the unresolved class.
+NoNewDiagnostic(R) == BagLe(R.diag_after, R.diag_before)
+
 HasHist(R) == "hops" \in DOMAIN R
 WsAfter(R) == Replay(WsOf(R.hinit), R.hops)
 \* the driver's idea of the live workspace is the specification's
@@ -88,7 +125,9 @@ JudgeRecord(R) ==
            \* not export it) may go
            <<"OtherImportsUnchanged", \E m \in targets : /\ \A p \in impB \ impA : p[2] = cls
                                                          /\ impA \subseteq impB \cup {<<m, cls>>}>>,
-           <<"OtherToplevelsUnchanged", R.toplevels_equal>> >>
+           <<"OtherToplevelsUnchanged", R.toplevels_equal>>,
+           <<"NoNewDiagnostic", NoNewDiagnostic(R)>>,
+           <<"BoundNamesStayBound", BindingsKept(R, targets)>> >>
       verdict == IF R.applied THEN verdictA \o verdictB ELSE verdictA
       \* ---- binding of the specification to the harness and to the implementation's internals
       applied == IF wf THEN ApplyEdits(T, es) ELSE T
@@ -114,7 +153,12 @@ JudgeRecord(R) ==
 
 \* A proposal without any edit for a class that an import of the document already names (from a module
 \* that does not export it) proposes nothing: there is nothing to judge.
-NothingProposed(R) == R.edits = <<>> /\ \E i \in DOMAIN R.imports_before : R.imports_before[i][2] = R.cls
+\* ... and so does one for a class the document binds already (imported from an exporter, or declared by the
+\* document itself), whether requested where the name is unresolved or where it is bound.
+NothingProposed(R) ==
+  /\ R.edits = <<>>
+  /\ \/ \E i \in DOMAIN R.imports_before : R.imports_before[i][2] = R.cls
+     \/ R.cls \in ToSet(R.locals_before)
 
 Verdict(R) ==
   IF R.kind \in {"action", "completion"} /\ NothingProposed(R)
